@@ -3,12 +3,9 @@ package clustal
 import (
 	"bufio"
 	"bytes"
-	"errors"
 	"io"
 	"strconv"
 	"strings"
-
-	alignio "github.com/evolbioinfo/goalign/io"
 )
 
 // Scanner represents a lexical scanner.
@@ -69,7 +66,10 @@ func (s *Scanner) Scan() (tok Token, lit string) {
 			if isNL(ch) {
 				return ENDOFLINE, ""
 			}
-			alignio.ExitWithMessage(errors.New("\\r without \\n detected"))
+			// \r without \n: reported to the parser as an illegal token
+			// (the parser then returns an error instead of the process being ended)
+			s.unread()
+			return ILLEGAL, "\r"
 		} else {
 			return ENDOFLINE, ""
 		}
